@@ -176,6 +176,18 @@ fn replace(
                 return Err("Specify a root element in `--value` to replace the document.".into());
             }
         }
+        xml_dom::XmlNode::Attribute(v) if !xml_dom::Attr::specified(&v) => {
+            // Supplied by an attribute-list default, so the element does not hold it: what is
+            // written is a specified attribute of the same name with the new value.
+            let owner = v
+                .owner_element()
+                .ok_or("Specify an attribute of an element using XPATH.")?;
+            let text = v.to_string();
+            let name = text.split_once('=').map_or(text.as_str(), |(name, _)| name);
+            let attribute = dom.create_attribute(name)?;
+            append_child(dom, attribute.clone(), value)?;
+            owner.set_attribute_node(attribute)?;
+        }
         xml_dom::XmlNode::Attribute(v) => {
             clear_child(v.clone())?;
             append_child(dom, v, value)?;
